@@ -158,6 +158,50 @@ class Engine:
         return LoudWalk(cfg, flag, flag_sources=sources, top_loop=top_node)
 
 
+def received_flags_are_read(ctx, rule="C21.R10"):
+    """Moving the report of a failed inner iteration from the helper to its caller is fine - if the caller looks at the flag.  K1 liveness:
+    the definition `..., converged = self._helper(...)` must reach at least one use of `converged`; if every path overwrites the name first
+    (`converged = False` at the top of the next loop), the helper's failure is silent."""
+    from ..cfg import CFG
+    from ..dataflow import ReachingDefs
+    rep = ctx.rep
+    n = 0
+    for rel, mod in sorted(ctx.repo.modules.items()):
+        if not rel.startswith("cardillo/solver/"):
+            continue
+        for q, fn in mod.defs().items():
+            if not isinstance(fn, ast.FunctionDef):
+                continue
+            cands = []
+            for w in walk_no_nested(fn):
+                if isinstance(w, ast.Assign) and isinstance(w.value, ast.Call) or (isinstance(w, ast.Assign) and isinstance(w.value, ast.Tuple) is False and isinstance(getattr(w.value, "elts", None), list)):
+                    tg = w.targets[0]
+                    names = [t.id for t in (tg.elts if isinstance(tg, ast.Tuple) else [tg]) if isinstance(t, ast.Name) and "converged" in t.id]
+                    if names and isinstance(w.value, ast.Call) and norm_src(w.value.func).startswith("self."):
+                        cands.append((w, names[0]))
+            if not cands:
+                continue
+            cfg = CFG(fn)
+            rd = ReachingDefs(cfg)
+            for w, name in cands:
+                n += 1
+                dn = cfg.node_of(w)
+                live = False
+                for node in cfg.nodes:
+                    if node.ast is None or node is dn:
+                        continue
+                    if name in rd.uses(node) and any(d is dn for d in rd.defs_reaching(node, name)):
+                        live = True
+                        break
+                C = f"{rel}:{q}"
+                if live:
+                    rep.ok(rule, C, f"the flag `{name}` received from `{norm_src(w.value.func)}` is read")
+                else:
+                    rep.bad(rule, C, w, f"`{norm_src(w)[:80]}`: the flag `{name}` returned by the helper is overwritten on every path before anything reads it - a failed iteration inside "
+                            f"`{norm_src(w.value.func)}` is neither raised nor warned about by this routine", f"{rel}:{w.lineno}")
+    rep.ok(rule, "cardillo/solver", f"{n} convergence flag(s) received from helper calls", trivial=True)
+
+
 def flag_from_error_only(ctx, rule="C21.R9"):
     """A loop that decides convergence by `flag = error < tol` reports exactly what the tolerance promises.  An additional `flag = True` under
     some other condition inside the same loop ("all percussions are zero, so nothing acts") declares an iterate converged that the error
@@ -343,6 +387,8 @@ def run(ctx):
     rep.rule("C21.R7", "the solvers' warnings are audible: no warn(...) in cardillo/solver or fsolve is issued under a suppressing filter the code itself installed, and no 'ignore' filter is installed for good", 10)
     from .c22 import warnings_audible
     warnings_audible(ctx, "C21.R7", ("cardillo/solver/", "cardillo/math/fsolve.py"), floor_calls=8)
+    rep.rule("C21.R10", "a convergence flag that a solver routine RECEIVES from a helper (tuple-unpacked result of an iteration routine) is read before it is overwritten: a flag that is dead on arrival reports nothing", 0)
+    received_flags_are_read(ctx)
     rep.rule("C21.R9", "inside an iteration loop the convergence flag comes from the error measure only: no `flag = True` shortcut in a loop that also sets the flag from a comparison with the tolerance", 4)
     flag_from_error_only(ctx)
     rep.rule("C21.R8", "no convergence difference in cardillo/solver compares an array with an alias of itself (reference bound without copy + in-place update returned by the iteration map)", 0)
@@ -667,4 +713,9 @@ NEUTRAL += [
 MUTANTS += [
     dict(id="c21-r9-seed", canary=True, what="[seeded by sub-agent] Moreau's fixed point declares convergence as soon as an iterate has all percussions zero ('all contacts separate')", file='cardillo/solver/moreau.py',
          old='                P_N, P_F = self.prox(u0, P_N, P_F)\n', new='                P_N, P_F = self.prox(u0, P_N, P_F)\n                if not (P_N.any() or P_F.any()):\n                    converged = True\n                    break\n', expect="C21.R9"),
+]
+
+MUTANTS += [
+    dict(id="c21-r10-seed", canary=True, what="[seeded by sub-agent] Rattle's stage-1 helper returns its convergence flag instead of reporting; solve() unpacks it into `converged`, which stage 2 resets before anything reads it", file='cardillo/solver/rattle.py',
+         edits=[('cardillo/solver/rattle.py', '        if not converged:\n            if self.options.continue_with_unconverged:\n                warnings.warn(\n                    "fixed-point iteration is not converged in stage 1 but integration is continued"\n                )\n            else:\n                raise RuntimeError("fixed-point iteration is not converged in stage 1")\n\n        return x1, y1, i_fixed_point\n', '        return x1, y1, i_fixed_point, converged\n'), ('cardillo/solver/rattle.py', '            x1n1, y1n1, i1_fixed_point = self._iterative_projection_method(\n                self.x1n, self.y1n, lu\n            )\n', '            x1n1, y1n1, i1_fixed_point, converged = self._iterative_projection_method(\n                self.x1n, self.y1n, lu\n            )\n')], expect="C21.R10"),
 ]
